@@ -684,3 +684,23 @@ Proof.
   rewrite segmentation_step, Hcs, frames_then by assumption.
   cbn [drain]. rewrite step_oversize_message by assumption. reflexivity.
 Qed.
+
+(* promptness: as soon as the reads so far cover the offending header the
+   connection has failed with an empty buffer, and whatever is read afterwards
+   (the oversize body, later frames) changes nothing *)
+Lemma oversize_prompt max fs hdr h total :
+  0 <= max < W32 -> max <= messageMaxLen + 65805 -> (forall f, In f fs -> good max f) ->
+  bytes_ok hdr = true -> declared hdr = Some (h, total) -> h <= blen hdr -> max < total ->
+  exists e, forall t (cs1 cs2 : list (list Z)),
+    concat cs1 = concat (map encode_frame fs) ++ hdr ++ t ->
+    fold_left (feed max) cs1 init = MkState [] (map item_of fs) (Failed e) /\
+    fold_left (feed max) (cs1 ++ cs2) init = MkState [] (map item_of fs) (Failed e).
+Proof.
+  intros Hmax Hmm Hgood Hok Hd Hh Hov.
+  destruct (oversize max fs hdr h total Hmax Hmm Hgood Hok Hd Hh Hov) as [e He].
+  exists e. intros t cs1 cs2 Hcs.
+  assert (H1 : fold_left (feed max) cs1 init = MkState [] (map item_of fs) (Failed e)).
+  { rewrite segmentation_step, Hcs. apply He. }
+  split; [exact H1|].
+  rewrite fold_left_app, H1. apply (failed_absorbing (step max)). reflexivity.
+Qed.
